@@ -61,6 +61,9 @@ ExplainsGc(cfg, c, r) ==
     /\ r.st = "ok"
     /\ CASE c.op = "gc"  -> GcOk(c.a.t, 1, r.g)
          [] c.op = "gc3" -> GcOk(c.a.t, 3, r.g)
+         \* the sequence is `reps` repetitions of `unit` (never logged verbatim)
+         [] c.op = "gc_rep"  -> c.a.reps >= 0 /\ GcRepOk(c.a.unit, c.a.reps, 1, r.g)
+         [] c.op = "gc3_rep" -> c.a.reps >= 0 /\ GcRepOk(c.a.unit, c.a.reps, 3, r.g)
          [] OTHER -> FALSE
 
 Explains(fam, cfg, e) ==
